@@ -645,7 +645,8 @@ class PageTemplate(BaseRenderer):
                 return str(getattr(img, parameter))
         except KeyError: pass
 
-        return '&%s-%s;' % (filename, parameter)
+        # Not the placeholder of an image: leave the text as it is
+        return m.group(0)
 
 
 # Set Renderer variable so that plastex will know how to load it
